@@ -19,6 +19,7 @@ Definition pinned_p_mask : list string :=
    "CosineSimCodebook.expire_codes_:batch_samples = rearrange(batch_samples[mask], '(c n) d -> c n d', c=c)";
    "vq.forward:mask = lens_to_mask(lens, x.shape[1])";
    "vq.forward:masked_out_value = orig_input";
+   "vq.forward:einx.where('b n, b n d, -> b n d', mask, x, 0.0)";
    "vq.forward:loss_mask = mask";
    "vq.forward:loss = loss[loss_mask].mean()";
    "vq.forward:masked_out_value = torch.zeros_like(orig_input)";
